@@ -101,6 +101,18 @@ class RefMap:
             return "ok"
         if op in ("compact", "evict", "reopen", "sleep"):
             return "ok"
+        if op == "racegate":
+            # get(k) on the cache-miss path held at its cache refill while a writer of k is released: the writer must wait for
+            # the get to return (lock scopes, theorem M6_get_miss_race), so the outcome is the get, then the writer
+            r1 = self.apply(["get", toks[1]])
+            r2 = self.apply(["clear"] if toks[2] == "clear" else [toks[2], toks[1]] + toks[3:])
+            return None if r1 is None or r2 is None else r1 + ";" + r2
+        if op == "wracegate":
+            # set(k, v1) held at the cache update of its updateCache while a second writer of k is released: the second writer must
+            # wait for the set to return (writers update _cache under _mutex, theorem M6_any_threads), so: the set, then the writer
+            r1 = self.apply(["set", toks[1], toks[2]])
+            r2 = self.apply(["clear"] if toks[3] == "clear" else [toks[3], toks[1]] + toks[4:])
+            return None if r1 is None or r2 is None else r1 + ";" + r2
         return None
 
     def read_line(self, toks):
@@ -198,19 +210,72 @@ def canon_trace(tr):
     return ";".join(out)
 
 
+def split_line(l):
+    """`<result> | <trace>[ | <extra>]` -> (result, trace, extra or None)."""
+    p = l.split(" | ")
+    return p[0], (p[1] if len(p) > 1 else "-"), (p[2] if len(p) > 2 else None)
+
+
 def canon_line(l):
     if " | " in l:
-        a, b = l.split(" | ", 1)
-        return a + " | " + canon_trace(b)
+        a, b, x = split_line(l)
+        return a + " | " + canon_trace(b) + ("" if x is None else " | " + x)
     return l
 
 
 def result_of(l):
-    return l.split(" | ", 1)[0]
+    return split_line(l)[0]
 
 
 def trace_of(l):
-    return l.split(" | ", 1)[1] if " | " in l else "-"
+    return split_line(l)[1]
+
+
+def order_of(l):
+    """The key order `keysWithPrefix` returned inside a `rmprefix` (third field `order:k1,k2,..`), or None."""
+    x = split_line(l)[2]
+    if x is None or not x.startswith("order:"):
+        return None
+    return [] if x[6:] == "-" else x[6:].split(",")
+
+
+def lockstep(ctx, hb, cases, **kw):
+    """ctx.lockstep for the `kv` component, plus the hash-order pass.
+
+    removeWithPrefix() removes the keys in the order keysWithPrefix() returned them, which is the iteration order of a
+    std::unordered_map.  That order is an INPUT of the model (Op.removeWithPrefix p ord): the harness reports the order the real
+    call used (`| order:..`), and wherever it differs from the order the model picked on its own, the op is rewritten to
+    `rmprefix <prefix> <k1> <k2> ..` and the model is re-run on the case.  The model uses the given order only if it is a
+    permutation of ITS matching live keys (otherwise it keeps its own order and the lines differ: a correspondence failure).
+    The case's op list is rewritten in place, so replay files carry the order and replay deterministically."""
+    res = ctx.lockstep("kv", hb, cases, **kw)
+    redo = []
+    for idx, (c, impl, model) in enumerate(res):
+        differs = False
+        ops2 = list(c["ops"])
+        for i, (op, a, b) in enumerate(zip(c["ops"], impl, model)):
+            if op.startswith("rmprefix "):
+                oa = order_of(a)
+                if oa is None:
+                    continue
+                ops2[i] = " ".join(op.split()[:2] + oa)
+                if oa != order_of(b):
+                    differs = True
+        if differs:
+            redo.append((idx, ops2))
+    if redo:
+        all_ops = [o for _, ops2 in redo for o in ops2]
+        out, rc, err = ctx.run_lines(ctx.model_argv("kv"), all_ops, timeout=kw.get("timeout", 600))
+        if rc != 0 or len(out) != len(all_ops):
+            raise RuntimeError("model driver failed in the hash-order pass rc=%s lines=%d/%d: %s" % (rc, len(out), len(all_ops), err[-500:]))
+        pos = 0
+        for idx, ops2 in redo:
+            c, impl, _ = res[idx]
+            c["ops"] = ops2
+            res[idx] = (c, impl, out[pos:pos + len(ops2)])
+            pos += len(ops2)
+    ctx.extra["hash_order_reruns"] = ctx.extra.get("hash_order_reruns", 0) + len(redo)
+    return res
 
 
 # ------------------------------------------------------------------ python-side file system (images for C11)
@@ -296,7 +361,7 @@ def gen_value(rng, big_ok=False):
     return bytes((i * 7 + 1) & 0xFF for i in range(rng.choice([8170, 8192, 9000, 20000])))   # crosses the ofstream buffer
 
 
-def gen_more(rng, n_ops, ref, keys, cfg, free=False, allow_reopen=True, allow_big=False, dist=None, read_every=True, clock=True):
+def gen_more(rng, n_ops, ref, keys, cfg, free=False, allow_reopen=True, allow_big=False, dist=None, read_every=True, clock=True, race=False):
     """n_ops further operations (each mutating op followed by a `read`) continuing from reference state `ref` (updated in place)."""
     ops = []
     outside = [b"zz-absent", b"a"]
@@ -319,6 +384,7 @@ def gen_more(rng, n_ops, ref, keys, cfg, free=False, allow_reopen=True, allow_bi
     for _ in range(n_ops):
         r = rng.below(1000)
         k = rng.choice(keys)
+        raced = False
         if r < 190:
             op = "set %s %s" % (hexs(k), hexs(gen_value(rng, allow_big)))
         elif r < 300:
@@ -330,6 +396,40 @@ def gen_more(rng, n_ops, ref, keys, cfg, free=False, allow_reopen=True, allow_bi
             op = "setttl %s %s %d" % (hexs(k), hexs(gen_value(rng)), ttl)
         elif r < 400:
             op = "get %s" % hexs(rng.choice(keys + outside + [b""]))
+            if race and not free and rng.chance(1, 3):
+                # deterministic schedule get(k) [cache miss] || writer of k (harness `racegate`): make the cache cold for a live key
+                # through the public API (restart, or an op that drops the entry: expireAt / persist), gate, then read k again
+                ref.prune()
+                livek = sorted(ref.m)
+                kk = rng.choice(livek) if livek and rng.chance(7, 8) else rng.choice(keys)
+                c = rng.below(4)
+                if c == 0 and allow_reopen:
+                    emit("reopen")
+                elif c == 1 and kk in ref.m and ref.m[kk][1] is not None:
+                    emit("persist %s" % hexs(kk))
+                elif c < 3:
+                    emit("expireat %s %d" % (hexs(kk), min(ref.now + rng.choice([3600000, 5000, 86400000]), MAXMS)))
+                # (c == 3: whatever the cache holds now: a hit, or a miss after an LRU eviction)
+                w = rng.below(8)
+                if w < 3:
+                    wop = "remove"
+                elif w < 5:
+                    wop = "set %s" % hexs(gen_value(rng))
+                elif w == 5:
+                    wop = "setttl %s %d" % (hexs(gen_value(rng)), rng.choice([1, 5, 3600]))
+                elif w == 6:
+                    wop = "expireat %d" % min(ref.now + rng.choice([1, 1000, 2000, 60000]), MAXMS)
+                else:
+                    wop = rng.choice(["persist", "clear"])
+                if rng.chance(1, 3):
+                    # two writers: set(kk, v1) gated at its cache update, the second writer released there
+                    emit("wracegate %s %s %s" % (hexs(kk), hexs(gen_value(rng)), wop))
+                    dist["wracegate"] = dist.get("wracegate", 0) + 1
+                else:
+                    emit("racegate %s %s" % (hexs(kk), wop))
+                    dist["racegate"] = dist.get("racegate", 0) + 1
+                raced = True
+                op = "get %s" % hexs(kk)
         elif r < 460:
             op = "remove %s" % hexs(rng.choice(keys + outside + [b""]))
         elif r < 560:
@@ -361,16 +461,17 @@ def gen_more(rng, n_ops, ref, keys, cfg, free=False, allow_reopen=True, allow_bi
             p = rng.choice([b"a", b"ab", b"user:", b"\x00", b"k", b"", b"q"])
             ref.prune()
             nmatch = len([x for x in ref.m if x.startswith(p)])
-            if small_log and nmatch > 1 and not free:
-                op = "compact"          # interleaved inline compaction would make the trace depend on the hash order
-            else:
-                op = "rmprefix %s" % hexs(p)
+            # (several keys under a tiny inline-compaction threshold: the compactions fall BETWEEN the delete records, so the trace
+            # depends on the order keysWithPrefix returned the keys; that order is an input of the model, see lockstep())
+            op = "rmprefix %s" % hexs(p)
+            if nmatch > 1 and small_log:
+                dist["rmprefix-multi-inline"] = dist.get("rmprefix-multi-inline", 0) + 1
         elif r < 735:
             op = "clear"
         elif r < 775:
             op = "compact"
             ref.prune()
-            live_snap = [x for x in snap_keys if x in ref.m]
+            live_snap = sorted(x for x in snap_keys if x in ref.m)      # (sorted: set order of bytes depends on PYTHONHASHSEED)
             if r >= 750 and live_snap and not free:
                 # an expiry-change record ('X') for a key that lives in the last snapshot, then the key goes away, then a compaction:
                 # in the crash window "new snapshot renamed, old log not yet reset" that 'X' is an ORPHAN (complete, CRC-valid, skipped by replay)
@@ -423,18 +524,18 @@ def gen_more(rng, n_ops, ref, keys, cfg, free=False, allow_reopen=True, allow_bi
         dist[op.split()[0]] = dist.get(op.split()[0], 0) + 1
         if free and rng.chance(1, 4):
             ops.append("sleep %d" % rng.choice([1, 2, 5, 12]))
-        if read_every and (op.split()[0] != "get" or rng.chance(1, 3)):
+        if read_every and (op.split()[0] != "get" or raced or rng.chance(1, 3)):
             read_all()
     return ops
 
 
-def gen_history(rng, n_ops, cfg, free=False, allow_reopen=True, allow_big=False, universe=None, read_every=True):
+def gen_history(rng, n_ops, cfg, free=False, allow_reopen=True, allow_big=False, universe=None, read_every=True, race=False):
     """Returns (ops, meta).  `cfg` = dict(maxCache, maxLog, inline, now).  Every mutating op is followed by a `read`."""
     keys = universe or gen_universe(rng, big=allow_big and rng.chance(1, 8))
     ref = RefMap(cfg["now"])
     ops = ["%s %d %d %d %d" % ("resetfree" if free else "reset", cfg["maxCache"], cfg["maxLog"], cfg["inline"], cfg["now"])]
     dist = {}
-    ops += gen_more(rng, n_ops, ref, keys, cfg, free=free, allow_reopen=allow_reopen, allow_big=allow_big, dist=dist, read_every=read_every)
+    ops += gen_more(rng, n_ops, ref, keys, cfg, free=free, allow_reopen=allow_reopen, allow_big=allow_big, dist=dist, read_every=read_every, race=race)
     if allow_reopen:
         ops.append("reopen")
         ops.append("read - %s" % " ".join(hexs(k) for k in keys if len(k) <= 64))
